@@ -274,3 +274,12 @@ impl<T> IntoIterator for HashSet<T> {
         self.items.into_iter()
     }
 }
+
+// `map[&key]` (used by quandary's own #[cfg(test)] modules, which are compiled
+// during native counterexample playback)
+impl<K: Eq + Borrow<Q>, V, Q: ?Sized + Eq> core::ops::Index<&Q> for HashMap<K, V> {
+    type Output = V;
+    fn index(&self, key: &Q) -> &V {
+        self.get(key).expect("no entry found for key")
+    }
+}
